@@ -76,7 +76,7 @@ def edge_queries(rng, S, xs):
 
 def generate(rng, tier):
     cases = []
-    reps = 110 if tier == "quick" else 3000
+    reps = gen.N(tier, 110, 3000)
     for _ in range(reps):
         S = rng.choice(["Q", "F"])
         dims = rng.choice([1, 1, 2])
